@@ -23,6 +23,7 @@ func Creator(ctx context.Context, name string, options map[string]string) (physi
 	defer f.Close()
 
 	fields := make(map[string]octosql.Type)
+	fieldOccurrences := make(map[string]int)
 
 	sc := bufio.NewScanner(f)
 	sc.Buffer(nil, 1024*1024)
@@ -49,7 +50,14 @@ func Creator(ctx context.Context, name string, options map[string]string) (physi
 			} else {
 				fields[string(key)] = getOctoSQLType(v)
 			}
+			fieldOccurrences[string(key)]++
 		})
+	}
+	for k, t := range fields {
+		if fieldOccurrences[k] < i {
+			// The key is missing in some rows, where the field is NULL.
+			fields[k] = octosql.TypeSum(t, octosql.Null)
+		}
 	}
 	if sc.Err() != nil {
 		return nil, physical.Schema{}, fmt.Errorf("couldn't scan lines: %w", sc.Err())
